@@ -188,7 +188,7 @@ func (a *APICond) Run(c recdiff.CCase, emit func(map[string]interface{}) error) 
 			return a.Cli.C.WhereAny(m, mconds...)
 		}
 		base := func(via string) map[string]interface{} {
-			return map[string]interface{}{"ev": "cond", "group": a.Group, "idxcfg": "none", "rows": rowsJ, "conds": c.Conds,
+			return map[string]interface{}{"ev": "cond", "group": a.Group, "idxcfg": "none", "rows": rowsJ, "conds": c.Conds, "caseConds": c.Conds,
 				"mode": mode, "via": via, "err": "", "uuids": []interface{}{}}
 		}
 		if err := a.load(c.Rows); err != nil {
